@@ -22,7 +22,7 @@ def main():
 Every change below was confirmed in a scratch worktree of /repo (`python -m harness.seedeval`): the patch applies to
 the current HEAD, the repository's own test-suite still passes with it, the author's demonstration passes without and
 fails with it; then `WATCHDOG_REPO=<worktree> ./check Cxx` (quick tier) was run. Files: `seeded/<id>/{patch.diff,demo.py,notes.md,meta.json}`.
-""" + f"{len(rows)} changes, two per property; 9 were missed or only half-caught by the first version of the check and led to a stronger check (see the last column).\n" + """
+""" + f"{len(rows)} changes, two to four per property (three rounds); 9 of round 2 and 10 of round 3 were missed or only half-caught by the first version of the check and led to a stronger check (see the last column).\n" + """
 | id | change | needs | quick check of that property |
 |----|--------|-------|------------------------------|
 """ + "\n".join(rows) + "\n"
